@@ -31,9 +31,9 @@ From Coq Require Import Lia.
 From Soy Require Import Proofs.SourceTieData Proofs.SourceTieHtml.
 From Soy Require Import Model.Bytes Model.Num Model.Values Model.Outcome Model.Ast
   Model.Escape Model.Directives Model.Print Generated.Tables Model.Interp Model.InterpSafety Model.Globals
-  Model.Compile Model.ExprPipeline Spec.Safety
+  Model.Compile Model.ExprPipeline Model.InterpExt Spec.Safety
   Proofs.SafetyPure Proofs.SafetyProofs Proofs.SafetyEntry Proofs.SafetyFuel Proofs.SafetyCompile Proofs.SafetyMono
-  Proofs.SafetyDepth Proofs.SafetyBytes Proofs.SafetyUser.
+  Proofs.SafetyDepth Proofs.SafetyBytes Proofs.SafetyUser Proofs.SafetyExt.
 Open Scope N_scope.
 
 (* ================================================================== *)
@@ -302,32 +302,87 @@ Theorem C06_recover_directive_answers : forall r, r <> UNoReturn -> nf (recover_
 Proof. exact recover_directive_answers. Qed.
 Print Assumptions C06_recover_directive_answers.
 
-(* the walker with ANY table of user functions (they may shadow builtins): never a panic out, never a
-   loop of the walker's own, provided each user function returns or panics on every argument list *)
+(* the walker with ANY user functions (they may shadow builtins) and ANY user directives (a directive
+   receives and returns a VALUE): never a panic out, never a loop of the walker's own, provided each
+   returns or panics on every input *)
 Theorem C06_walk_user_no_escape :
-  forall cf (ufuncs : bstr -> option user_func),
+  forall cf (ufuncs : bstr -> option user_func) (udirs : bstr -> option user_directive),
     (forall name uf vs, ufuncs name = Some uf -> uf_apply uf vs <> UNoReturn) ->
-    forall fuel n st, no_escape (fst (walk_user cf ufuncs fuel n st)).
-Proof. exact walk_user_no_escape. Qed.
+    (forall name ud v args, udirs name = Some ud -> ud_apply ud v args <> UNoReturn) ->
+    forall fuel n st, no_escape (fst (walk_user cf ufuncs udirs fuel n st)).
+Proof. intros cf ufuncs udirs H1 H2. apply walk_user_no_escape. split; assumption. Qed.
 Print Assumptions C06_walk_user_no_escape.
 
-(* ... and it is the walker when the table is empty (outcome and state) *)
-Theorem C06_walk_user_conservative :
-  forall cf fuel n st, walk_user cf (fun _ => None) fuel n st = walk cf fuel n st.
-Proof. exact walk_user_none. Qed.
-Print Assumptions C06_walk_user_conservative.
+(* Renderer.Execute with them, incl. the code inside errRecover (positions stay inside the source) *)
+Theorem C06_render_user_no_escape :
+  forall cf (ufuncs : bstr -> option user_func) (udirs : bstr -> option user_directive)
+         fuel name data_id data calls_left bytes_left first_id,
+    (forall name uf vs, ufuncs name = Some uf -> uf_apply uf vs <> UNoReturn) ->
+    (forall name ud v args, udirs name = Some ud -> ud_apply ud v args <> UNoReturn) ->
+    reg_ok (c_reg cf) = true ->
+    no_escape (rr_outcome (render_hook cf (funcs_with_user ufuncs) (dirs_with_user udirs)
+                             fuel name data_id data calls_left bytes_left first_id)).
+Proof. intros. apply render_user_no_escape; [split; assumption | assumption]. Qed.
+Print Assumptions C06_render_user_no_escape.
 
-(* evalPrint's directive loop over VALUES with user directives in the table *)
-Theorem C06_print_writes_user_answers :
-  forall (dir_table : bstr -> option dir_entry),
-    (forall name de ap v args, dir_table name = Some de -> de_impl de = DUser ap -> ap v args <> UNoReturn) ->
-    forall mode dirs v, nf (print_writes_user dir_table mode dirs v).
-Proof. exact print_writes_user_nf. Qed.
-Print Assumptions C06_print_writes_user_answers.
+(* the hooked walker satisfies EVERY walker logic of Proofs/InterpLogic.v whose pure-site condition holds
+   of the hooked calls: the other invariants of the walker (C08, C12, ...) extend to user code the same way *)
+Theorem C06_walk_hook_logic :
+  forall cf fhooks dir_table (Phi : forall A : Type, M A -> Prop) (pure_ok : forall A : Type, outcome A -> Prop),
+    InterpLogic.walker_logic Phi pure_ok -> InterpLogic.pure_sites pure_ok ->
+    (forall name h vs, fhooks name = Some h -> pure_ok _ (fh_apply h vs)) ->
+    (forall mode ds v, pure_ok _ (print_writes_hook dir_table mode ds v)) ->
+    forall fuel n, Phi _ (walk_hook cf fhooks dir_table fuel n).
+Proof. exact walk_hook_logic. Qed.
+Print Assumptions C06_walk_hook_logic.
 
 (* the limit: user code that does not return is not turned into an error by any wrapper *)
 Theorem C06_user_noreturn_not_covered : recover_func UNoReturn = Diverge /\ recover_directive UNoReturn = Diverge.
 Proof. split; reflexivity. Qed.
+
+(* ================================================================== *)
+(* The extended model: escapeJsString, json, round with digits         *)
+(* ================================================================== *)
+
+(* Model/InterpExt.v: the three library calls Model/Interp.v answers [OutOfModel] for, as hooked entries:
+   the walker and Renderer.Execute with them never let a panic out and never spin ... *)
+Theorem C06_walk_x_no_escape : forall cf fuel n st, no_escape (fst (walk_x cf fuel n st)).
+Proof. exact walk_x_no_escape. Qed.
+Print Assumptions C06_walk_x_no_escape.
+
+Theorem C06_render_x_no_escape :
+  forall cf fuel name data_id data calls_left bytes_left first_id,
+    reg_ok (c_reg cf) = true ->
+    no_escape (rr_outcome (render_x cf fuel name data_id data calls_left bytes_left first_id)).
+Proof. exact render_x_no_escape. Qed.
+Print Assumptions C06_render_x_no_escape.
+
+(* ... and the new entries are INSIDE the model: json of any value without floats is a string, whatever the
+   value's String() does (a list holding undefined prints null); escapeJsString is a string wherever
+   String() is; json / round on floats answer in the float model's domain, NaN and the infinities under
+   json are directiveJson's panic, i.e. an error value *)
+Theorem C06_json_total_float_free :
+  forall v args, float_free v = true -> exists s, dir_json v args = Ok (VStr s).
+Proof. exact json_total_float_free. Qed.
+Print Assumptions C06_json_total_float_free.
+
+Theorem C06_escape_js_total :
+  forall v args s, value_string v = Ok s -> dir_escape_js v args = Ok (VStr (JsEscape.js_escape is_print_tbl s)).
+Proof. exact dir_escape_js_total. Qed.
+Print Assumptions C06_escape_js_total.
+
+Example C06_ex_json :
+  dir_json (VList 5 [VInt 1; VUndef; VStr (b "a<b"); VMap 6 [(b "k", VBool true); (b "a", VNull)]]) []
+    = Ok (VStr (b "[1,null,""a\u003cb"",{""a"":null,""k"":true}]"))
+  /\ is_err (dir_json (VFloat FNaN) []) = true
+  /\ dir_json (VFloat (FFin 3 (-1))) [] = Ok (VStr (b "1.5"))
+  /\ dir_json (VList 0 []) [] = Ok (VStr (b "null")).
+Proof. vm_compute. repeat split; reflexivity. Qed.
+Example C06_ex_round_digits :
+  round_x [VFloat (FFin 5 (-1)); VInt 1] = Ok (VFloat (FFin 5 (-1)))           (* round(2.5, 1) = 2.5 *)
+  /\ round_x [VFloat (FFin 5 (-2)); VInt 1] = OutOfModel                        (* round(1.25, 1) = 1.3 *)
+  /\ round_x [VFloat (FFin 5 (-1))] = Ok (VInt 3).
+Proof. vm_compute. repeat split; reflexivity. Qed.
 
 (* ================================================================== *)
 (* Non-vacuity                                                         *)
